@@ -18,6 +18,12 @@ Contract (from the statement; the oracle is the data that was written):
             identical model restarted (prepare_simulation with restart_options) from the mdg pvd of export index k, from the plain pvd
             (latest export) or from the vtu files of index k holds, for every primary variable on every subdomain and interface, the
             values written at that export, and time_manager.time / dt are the ones written at that export.
+  ensures   restore of an exported step (TimeManager.set_time_and_dt_from_exported_steps, the call load_data_from_pvd / _vtu make):
+            seeded adaptive (constant_dt=False) and constant-dt managers are stepped with the protocol of run_time_dependent_model over
+            schedules with intermediate scheduled times, so that written dt values are relaxed, restricted, clipped and *shortened below
+            dt_min* at a scheduled time; after load_time_information + set_time_and_dt_from_exported_steps(k) a fresh manager holds exactly
+            the (time, dt) the writer held at write k (also when that dt lies outside [dt_min, dt_max]) and the history before k.  The
+            model restart is run with a second time control (schedule [0, 0.6, 3], dt_min 0.2: an exported dt of 0.1) as well.
 Before importing, the stored values are overwritten with NaN so that stale data cannot pass (model restart: the fresh model holds its
 initial condition, which differs from every later export).
 
@@ -66,6 +72,10 @@ Detection power (scratch copy, POREPY_SRC, quick tier; exit 1 with the named obl
   M7 import_from_pvd (plain pvd): files of the latest step collected by walking the DataSet entries backwards until another time step
        -> "import: values restored cell by cell", signatures "..., constants exported separately" (the constant-data files are listed
        after the state files of all steps, nothing is restored and the NaN poison remains).
+  M8 TimeManager.set_time_and_dt_from_exported_steps: restored dt clipped to [dt_min, dt_max] for adaptive managers
+       -> "set_time_and_dt_from_exported_steps: dt is the dt written at the addressed index", signature "adaptive dt, addressed dt outside
+       [dt_min, dt_max]", and "load_data_from_pvd / load_data_from_vtu: dt is the dt written at the restored export index", signatures
+       "model restart from ... of an export index, written dt outside [dt_min, dt_max]" (time control 'intermediate scheduled time').
 """
 from __future__ import annotations
 
@@ -74,15 +84,19 @@ META = {
     "engine": "sweep",
     "technique": "run-time contract sweep (bounded stand-in for deduction): export with the real Exporter, import with a fresh Exporter on "
                  "the same md-grid, compare restored cell data with what was written; grids with mixed cell shapes in every cell order; "
-                 "run a small model with DataSavingMixin, restart a fresh model from its files, compare values, time and dt",
+                 "run a small model with DataSavingMixin, restart a fresh model from its files, compare values, time and dt; step seeded "
+                 "time managers, write the time information, restore every exported index in a fresh manager, compare with the record",
     "text": "Bounded assurance only: the round trip goes through meshio, XML and per-cell-type regrouping inside third-party writers; no "
             "contract within reach expresses the file format. Covered: scalar and 3-vector cell data on subdomains and interfaces (up to "
             "four subdomains of one dimension), plain pvd (latest step), mdg pvd (addressed step), explicit vtu lists, the same with "
             "export_constants_separately=True (the time-dependent keys only; the constant field itself is not compared), TimeManager "
             "time information, and the model mixin restart (load_data_from_pvd with mdg / plain pvd, load_data_from_vtu with time_index) "
             "on one small SinglePhaseFlow model with scalar variables and non-uniform time steps: values, time and dt of the addressed "
-            "export. Not covered: point data, restoring the constant data themselves, 2-component vectors, vector variables and "
-            "non-SI units in the model restart, the cut of the exported history after a restart, ascii vtu, simplex md-grids from gmsh.",
+            "export; the model restart also with an intermediate scheduled time (an exported dt below dt_min); "
+            "TimeManager.set_time_and_dt_from_exported_steps on seeded adaptive / constant-dt histories with several scheduled times "
+            "(written dt relaxed, restricted, clipped, shortened below dt_min): time, dt and the earlier history of every exported index. "
+            "Not covered: point data, restoring the constant data themselves, 2-component vectors, vector variables and "
+            "non-SI units in the model restart, the cut of the exported history after a model restart, recomputed (failed) time steps, ascii vtu, simplex md-grids from gmsh.",
     "note": "trusted: meshio vtu writer/reader (binary, float64), the written arrays as oracle; files under /var/tmp",
 }
 
@@ -266,9 +280,24 @@ def _model_class(pp):
     return Model
 
 
-def _make_model(pp, folder, cell_size, fractures, restart_options=None):
-    tm = pp.TimeManager(schedule=[0.0, 3.0], dt_init=0.25, dt_min_max=(0.05, 1.0), iter_optimal_range=(4, 7), iter_relax_factors=(0.7, 2.0),
-                        constant_dt=False)
+TIME_CONTROLS = {
+    # one scheduled interval: every exported dt lies within [dt_min, dt_max]
+    "default": {"schedule": [0.0, 3.0], "dt_init": 0.25, "dt_min_max": (0.05, 1.0)},
+    # an intermediate scheduled time that the relaxed steps do not hit: the step before it is shortened below dt_min (the time manager
+    # allows that), so an exported dt lies outside [dt_min, dt_max]
+    "intermediate scheduled time": {"schedule": [0.0, 0.6, 3.0], "dt_init": 0.25, "dt_min_max": (0.2, 1.0)},
+}
+
+
+SIG_DT_OUT = ", written dt outside [dt_min, dt_max]"
+
+
+def _dt_outside(dt, dt_min_max):
+    return bool(dt < dt_min_max[0] or dt > dt_min_max[1])
+
+
+def _make_model(pp, folder, cell_size, fractures, restart_options=None, tc="default"):
+    tm = pp.TimeManager(iter_optimal_range=(4, 7), iter_relax_factors=(0.7, 2.0), constant_dt=False, **TIME_CONTROLS[tc])
     params = {"time_manager": tm, "fracture_indices": list(fractures), "grid_type": "cartesian", "meshing_arguments": {"cell_size": cell_size},
               "folder_name": str(folder), "file_name": "data",
               "material_constants": {"fluid": pp.FluidComponent(compressibility=0.5, viscosity=1.0, density=1.0),
@@ -282,14 +311,14 @@ def _model_grids(model):
     return list(model.mdg.subdomains()) + list(model.mdg.interfaces())
 
 
-def run_model(pp, root, cell_size, fractures):
-    """Run the exporting model; returns (ok, model or message)."""
+def run_model(pp, root, cell_size, fractures, tc="default"):
+    """Run the exporting model with the time control TIME_CONTROLS[tc]; returns (ok, model or message)."""
     import logging
 
     logging.disable(logging.CRITICAL)
     try:
         def go():
-            m = _make_model(pp, Path(root) / "first", cell_size, fractures)
+            m = _make_model(pp, Path(root) / "first", cell_size, fractures, tc=tc)
             pp.run_time_dependent_model(m)
             return m
 
@@ -298,7 +327,7 @@ def run_model(pp, root, cell_size, fractures):
         logging.disable(logging.NOTSET)
 
 
-def check_model_restart(pp, model, root, cell_size, fractures, how, k, tag):
+def check_model_restart(pp, model, root, cell_size, fractures, how, k, tag, tc="default"):
     """Restart a fresh, identical model from export index k of `model` through `how`; returns (status, list of (obligation, detail)),
     status "skip" when the second model's md-grid does not match (outside requires)."""
     import logging
@@ -318,7 +347,7 @@ def check_model_restart(pp, model, root, cell_size, fractures, how, k, tag):
     logging.disable(logging.CRITICAL)
     try:
         def go():
-            m2 = _make_model(pp, Path(root) / tag, cell_size, fractures, ro)
+            m2 = _make_model(pp, Path(root) / tag, cell_size, fractures, ro, tc=tc)
             m2.prepare_simulation()
             return m2
 
@@ -455,6 +484,82 @@ def check_roundtrip(pp, mdg, tmp, tag, steps=(1, 2), constants=False):
     return bad
 
 
+# ----------------------------------------------------------------------------- time information: restore of an exported step
+
+SIG_TM_CONST = "constant dt"
+SIG_TM_IN = "adaptive dt, addressed dt within [dt_min, dt_max]"
+SIG_TM_OUT = "adaptive dt, addressed dt outside [dt_min, dt_max]"
+
+
+def _time_manager(pp, spec):
+    if spec["constant_dt"]:
+        return pp.TimeManager(schedule=spec["schedule"], dt_init=spec["dt_init"], constant_dt=True)
+    return pp.TimeManager(schedule=spec["schedule"], dt_init=spec["dt_init"], constant_dt=False, dt_min_max=tuple(spec["dt_min_max"]),
+                          iter_relax_factors=tuple(spec["iter_relax_factors"]), iter_optimal_range=(4, 7))
+
+
+def write_time_history(pp, path, spec):
+    """The stepping protocol of pp.run_time_dependent_model with the iteration counts of spec["iterations"]: increase_time,
+    increase_time_index, compute_time_step(iterations) (adaptive only), and write_time_information where spec["written"] says so (the
+    initial state is always written).  Returns (manager, [(time, dt) held by the manager at every write])."""
+    tm = _time_manager(pp, spec)
+    hist = [(float(tm.time), float(tm.dt))]
+    tm.write_time_information(path)
+    for its, wr in zip(spec["iterations"], spec["written"]):
+        if tm.final_time_reached():
+            break
+        tm.increase_time()
+        tm.increase_time_index()
+        if not spec["constant_dt"]:
+            tm.compute_time_step(iterations=its)
+        if wr:
+            hist.append((float(tm.time), float(tm.dt)))
+            tm.write_time_information(path)
+    return tm, hist
+
+
+def check_time_restore(pp, path, spec, hist, indices):
+    """A fresh, identically configured TimeManager loads `path` and restores the exported step `k` for every k in `indices` (None: the
+    default argument, i.e. the latest step).  Oracle: hist = the (time, dt) pairs the writer held when they were written.
+    Returns [(obligation, signature, k, detail)]."""
+    bad = []
+    n = len(hist)
+    for k in indices:
+        kk = n - 1 if k is None else k % n
+        if spec["constant_dt"]:
+            sig = SIG_TM_CONST
+        else:
+            sig = SIG_TM_OUT if _dt_outside(hist[kk][1], spec["dt_min_max"]) else SIG_TM_IN
+
+        def go():
+            tm2 = _time_manager(pp, spec)
+            tm2.load_time_information(path)
+            if k is None:
+                tm2.set_time_and_dt_from_exported_steps()
+            else:
+                tm2.set_time_and_dt_from_exported_steps(k)
+            return tm2
+
+        ok, tm2 = _call(go)
+        if not ok:
+            bad.append(("set_time_and_dt_from_exported_steps: returns normally on a written history", sig, k, tm2))
+            continue
+        if float(tm2.time) != hist[kk][0]:
+            bad.append(("set_time_and_dt_from_exported_steps: time is the time written at the addressed index", sig, k,
+                        f"index {k}: written (time, dt) {hist[kk]}, restored time {float(tm2.time)}; written history {hist}"))
+        if float(tm2.dt) != hist[kk][1]:
+            bad.append(("set_time_and_dt_from_exported_steps: dt is the dt written at the addressed index", sig, k,
+                        f"index {k}: written (time, dt) {hist[kk]}, restored dt {float(tm2.dt)}"
+                        + ("" if spec["constant_dt"] else f", dt_min_max {list(spec['dt_min_max'])}") + f"; written history {hist}"))
+        # "cut off all later times": the entries before the addressed index are kept unchanged (the addressed entry itself is written
+        # again by the restarted run; with or without it is accepted)
+        rest = list(zip([float(t) for t in tm2.exported_times], [float(d) for d in tm2.exported_dt]))
+        if len(tm2.exported_times) != len(tm2.exported_dt) or rest not in (hist[:kk], hist[:kk + 1]):
+            bad.append(("set_time_and_dt_from_exported_steps: the history before the addressed index is kept, later entries are cut", sig, k,
+                        f"index {k}: remaining times {list(tm2.exported_times)} dts {list(tm2.exported_dt)}; written history {hist}"))
+    return bad
+
+
 # ----------------------------------------------------------------------------- entry
 
 
@@ -468,7 +573,7 @@ def run(rep):
                        "pp.Exporter._export_grid_0d/_1d/_2d/_3d (through write_vtu)", "pp.TimeManager.write_time_information",
                        "pp.TimeManager.load_time_information", "pp.Exporter.add_constant_data (export_constants_separately=True)",
                        "pp.DataSavingMixin.write_pvd_and_vtu / load_data_from_pvd / load_data_from_vtu (through "
-                       "SolutionStrategy.prepare_simulation with restart_options)", "pp.TimeManager.set_time_and_dt_from_exported_steps")
+                       "SolutionStrategy.prepare_simulation with restart_options)", "pp.TimeManager.set_time_and_dt_from_exported_steps (directly and through the model restart)")
     rep.assume("cell data only, scalar or 3-component, float64, registered at time_step_index 0 on all grids of a dimension",
                "the importing Exporter is constructed on the same md-grid object (model restart: on an identically constructed md-grid)",
                "binary vtu (default): values stored exactly", "model restart: default (SI) units, so the exported arrays are the variable values")
@@ -626,37 +731,56 @@ def run(rep):
         with rep.sweep(
             "model restart (DataSavingMixin)",
             rule="SinglePhaseFlow on the unit square with Cartesian cells (cell_size, fracture_indices) in {(0.5, [0, 1])} (thorough: also "
-                 "(0.25, [0, 1]), (0.5, [0])), adaptive time steps on [0, 3] from dt 0.25 (exports at non-uniform times with non-uniform dt); "
+                 "(0.25, [0, 1]), (0.5, [0])), adaptive time steps on [0, 3] from dt 0.25 (exports at non-uniform times with non-uniform dt), "
+                 "time control 'default' (schedule [0, 3], dt in [0.05, 1]) and 'intermediate scheduled time' (schedule [0, 0.6, 3], dt in "
+                 "[0.2, 1]: the step that hits 0.6 is shortened to 0.1 < dt_min, so an exported dt lies outside [dt_min, dt_max]); "
                  "a fresh identical model is restarted from (a) the mdg pvd of every export index k, (b) the plain pvd (latest export), (c) the "
                  "vtu files of an intermediate and of the last export index with time_index=k; compared with the checker's record of the "
                  "arrays handed to write_vtu and of time_manager.time / dt at export k; nontrivial = k >= 1 (the restored values differ "
-                 "from the initial condition of the fresh model) ; distinct by (model, restart path, k)",
-            bound="1 model (thorough: 3), 4 or 16 matrix cells, one export per time step (6 with the stated time control)",
+                 "from the initial condition of the fresh model) ; with the second time control: (a) and (c) at the export indices whose dt "
+                 "is outside the range; distinct by (model, time control, restart path, k)",
+            bound="2 models (thorough: 6), 4 or 16 matrix cells, one export per time step (6 / 8 with the stated time controls)",
             exhaustive=False,
         ) as sw:
-            for cs, fr in ((0.5, (0, 1)),) if quick else ((0.5, (0, 1)), (0.25, (0, 1)), (0.5, (0,))):
-                root = Path(tmp) / f"model_{int(cs * 100)}_{len(fr)}"
-                ok, model = run_model(pp, root, cs, fr)
+            models = [(0.5, (0, 1), "default"), (0.5, (0, 1), "intermediate scheduled time")]
+            if not quick:
+                models += [(0.25, (0, 1), "default"), (0.5, (0,), "default"), (0.25, (0, 1), "intermediate scheduled time"),
+                           (0.5, (0,), "intermediate scheduled time")]
+            for cs, fr, tc in models:
+                root = Path(tmp) / f"model_{int(cs * 100)}_{len(fr)}_{len(tc)}"
+                ok, model = run_model(pp, root, cs, fr, tc)
                 if not ok or len(getattr(model, "record", [])) < 4:
-                    rep.note(f"model (cell_size {cs}, fractures {list(fr)}) did not run to the end ({model if not ok else 'fewer than 4 exports'}); cases skipped")
+                    rep.note(f"model (cell_size {cs}, fractures {list(fr)}, time control {tc}) did not run to the end "
+                             f"({model if not ok else 'fewer than 4 exports'}); cases skipped")
                     sw.skip()
                     continue
                 n = len(model.record)
                 times = [r["time"] for r in model.record]
-                restarts = [("mdg_pvd", k) for k in range(n)] + [("plain_pvd", n - 1), ("vtu", 2), ("vtu", n - 1)]
+                dmm = TIME_CONTROLS[tc]["dt_min_max"]
+                outside = [k for k in range(n) if _dt_outside(model.record[k]["dt"], dmm)]
+                if tc == "default":
+                    restarts = [("mdg_pvd", k) for k in range(n)] + [("plain_pvd", n - 1), ("vtu", 2), ("vtu", n - 1)]
+                else:
+                    # the plain pvd path is exercised with the default time control (known finding there); here every export index through
+                    # the mdg pvd, and the vtu path at the export indices whose dt lies outside [dt_min, dt_max]
+                    if not outside:
+                        rep.note(f"time control '{tc}' (cell_size {cs}, fractures {list(fr)}): no exported dt outside [dt_min, dt_max] "
+                                 f"(written dt {[r['dt'] for r in model.record]})")
+                    restarts = [("mdg_pvd", k) for k in range(n)] + [("vtu", k) for k in (outside or [2])]
                 for how, k in restarts:
                     inp = {"model": "SinglePhaseFlow, SquareDomainOrthogonalFractures, cartesian", "cell_size": cs, "fracture_indices": list(fr),
-                           "restart": how, "export_index": k, "written_times": times, "written_dt": [r["dt"] for r in model.record]}
+                           "restart": how, "export_index": k, "written_times": times, "written_dt": [r["dt"] for r in model.record],
+                           "time_control": tc, "time_manager": {kk: list(v) if isinstance(v, (list, tuple)) else v for kk, v in TIME_CONTROLS[tc].items()}}
                     if how == "plain_pvd" and times == [float(j) for j in range(n)]:
                         sw.skip()  # the signature names export times that differ from the indices
                         continue
-                    status, bad = check_model_restart(pp, model, root, cs, fr, how, k, f"second_{how}_{k}")
+                    status, bad = check_model_restart(pp, model, root, cs, fr, how, k, f"second_{how}_{k}", tc)
                     if status == "skip":
                         sw.skip()
                         continue
-                    sw.case(("model", cs, fr, how, k), nontrivial=k >= 1, sample=inp)
+                    sw.case(("model", cs, fr, tc, how, k), nontrivial=k >= 1, sample=inp)
                     for ob, det in bad:
-                        rep.violation(ob, MODEL_SIG[how], inputs=inp, detail=det, confirmed=True)
+                        rep.violation(ob, MODEL_SIG[how] + (SIG_DT_OUT if k in outside else ""), inputs=inp, detail=det, confirmed=True)
 
         with rep.sweep(
             "TimeManager time information",
@@ -711,6 +835,82 @@ def run(rep):
                     rep.violation("time information: exported dt restored", "constant dt", inputs=inp,
                                   detail=f"wrote {tm.exported_dt}, read {tm2.exported_dt}", confirmed=True)
 
+        nh = 30 if quick else 400
+        with rep.sweep(
+            "TimeManager restore of an exported step",
+            rule="seeded time managers: adaptive (constant_dt=False; schedule of 2-4 times with intervals from {0.7, 1.0, 1.5, 2.3}, dt_min in "
+                 "{0.2, 0.3}, dt_max = 2-4 dt_min, dt_init in [dt_min, dt_max], relaxation factors (0.7, 1.3) or (0.5, 2.0)) and, one in "
+                 "four, constant dt; stepped with the protocol of run_time_dependent_model (increase_time, increase_time_index, "
+                 "compute_time_step with seeded iteration counts from {1, 5, 9}: relax / keep / restrict; steps that hit a scheduled time "
+                 "are shortened, also below dt_min) up to the final time; write_time_information at the start and after four of five "
+                 "steps; the checker records (time, dt) at every write.  Writer's lists and the lists loaded by a fresh manager must "
+                 "equal the record; for every exported index k (and the default argument) a fresh manager after load_time_information + "
+                 "set_time_and_dt_from_exported_steps(k) must hold time and dt written at k, and the history before k; nontrivial = at "
+                 "least 3 entries with two different dt; distinct by the manager configuration and the iteration / write sequence",
+            bound="%d seeded histories, <= 40 steps each" % nh,
+            exhaustive=False,
+        ) as sw:
+            n_out = 0
+            for it in range(nh):
+                t0 = rng.choice((0.0, 0.5, 10.0))
+                if rng.random() < 0.25:
+                    dt = rng.choice((0.1, 0.25, 1.0, 2.5))
+                    nst = rng.randint(1, 8)
+                    spec = {"constant_dt": True, "schedule": [t0, t0 + dt * nst], "dt_init": dt, "dt_min_max": None, "iter_relax_factors": None}
+                else:
+                    sched = [t0]
+                    for _ in range(rng.randint(1, 3)):
+                        sched.append(sched[-1] + rng.choice((0.7, 1.0, 1.5, 2.3)))
+                    dt_min = rng.choice((0.2, 0.3))
+                    dt_max = dt_min * rng.choice((2, 3, 4))
+                    # requires of the constructor: dt_min <= dt_init <= dt_max and dt_init <= final time
+                    spec = {"constant_dt": False, "schedule": sched,
+                            "dt_init": rng.choice([d for d in (dt_min, 0.5 * (dt_min + dt_max), dt_max) if d <= sched[-1]]),
+                            "dt_min_max": [dt_min, dt_max], "iter_relax_factors": list(rng.choice(((0.7, 1.3), (0.5, 2.0))))}
+                spec["iterations"] = [rng.choice((1, 1, 5, 9)) for _ in range(40)]
+                spec["written"] = [rng.random() < 0.8 for _ in range(40)]
+                path = Path(tmp) / "restore" / f"t{it}.json"
+                ok, res = _call(lambda: write_time_history(pp, path, spec))
+                if not ok:
+                    # the stepping itself is not under contract here (C38 is about what was written)
+                    rep.note(f"time history {it} could not be produced ({res}); case skipped")
+                    sw.skip()
+                    continue
+                tm, hist = res
+                used = len(hist)
+                inp = {"time_history_spec": spec, "written_history": [list(h) for h in hist]}
+                sig0 = SIG_TM_CONST if spec["constant_dt"] else "adaptive dt"
+                out = (not spec["constant_dt"]) and any(_dt_outside(h[1], spec["dt_min_max"]) for h in hist)
+                n_out += out
+                sw.case(("restore", it, repr(spec)), nontrivial=used >= 3 and len({h[1] for h in hist}) >= 2, sample=inp)
+                if [float(x) for x in tm.exported_times] != [h[0] for h in hist] or [float(x) for x in tm.exported_dt] != [h[1] for h in hist]:
+                    rep.violation("time information: exported history holds time and dt of every call", sig0, inputs=inp,
+                                  detail=f"times {tm.exported_times} dts {tm.exported_dt}; held at the writes {hist}", confirmed=True)
+
+                def load():
+                    tm2 = _time_manager(pp, spec)
+                    tm2.load_time_information(path)
+                    return tm2
+
+                ok, tm2 = _call(load)
+                if not ok:
+                    rep.violation("time information: load_time_information returns normally", sig0, inputs=inp, detail=tm2, confirmed=True)
+                    continue
+                if [float(x) for x in tm2.exported_times] != [h[0] for h in hist]:
+                    rep.violation("time information: exported times restored", sig0, inputs=inp,
+                                  detail=f"wrote {[h[0] for h in hist]}, read {tm2.exported_times}", confirmed=True)
+                if [float(x) for x in tm2.exported_dt] != [h[1] for h in hist]:
+                    rep.violation("time information: exported dt restored", sig0, inputs=inp,
+                                  detail=f"wrote {[h[1] for h in hist]}, read {tm2.exported_dt}", confirmed=True)
+                seen = set()
+                for ob, sig, k, det in check_time_restore(pp, path, spec, hist, list(range(used)) + [None]):
+                    if (ob, sig) in seen:
+                        continue  # one violation per obligation and signature for one history
+                    seen.add((ob, sig))
+                    rep.violation(ob, sig, inputs=dict(inp, restore_index=k), detail=det, confirmed=True)
+            if n_out == 0:
+                rep.note("TimeManager restore sweep: no seeded history contained a dt outside [dt_min, dt_max]")
+
 
 def replay(data):
     """Rebuild the recorded md-grid (explicit 2-d cell orders, polytopal and structured 3-d cases) and redo the round trip."""
@@ -724,14 +924,26 @@ def replay(data):
     constants = bool(inputs.get("export_constants_separately", False))
     steps = tuple(inputs.get("steps") or (1, 2))
 
+    if "time_history_spec" in inputs:
+        spec = inputs["time_history_spec"]
+        with tempfile.TemporaryDirectory(dir="/var/tmp", prefix="verif_c38_") as tmp:
+            path = Path(tmp) / "t.json"
+            tm, hist = write_time_history(pp, path, spec)
+            idx = [inputs["restore_index"]] if "restore_index" in inputs else list(range(len(hist))) + [None]
+            bad = check_time_restore(pp, path, spec, hist, idx)
+            held = ([float(x) for x in tm.exported_times], [float(x) for x in tm.exported_dt]) != ([h[0] for h in hist], [h[1] for h in hist])
+        print("replay:", bad[:3], "writer's lists differ from the record" if held else "")
+        return bool(bad) or held
+
     if "model" in inputs:
         cs, fr, how, k = inputs["cell_size"], tuple(inputs["fracture_indices"]), inputs["restart"], inputs["export_index"]
+        tc = inputs.get("time_control", "default")
         with tempfile.TemporaryDirectory(dir="/var/tmp", prefix="verif_c38_") as tmp:
-            ok, model = run_model(pp, tmp, cs, fr)
+            ok, model = run_model(pp, tmp, cs, fr, tc)
             if not ok or len(model.record) <= k:
                 print("replay: model did not run", model if not ok else "")
                 return False
-            status, bad = check_model_restart(pp, model, tmp, cs, fr, how, k, "second")
+            status, bad = check_model_restart(pp, model, tmp, cs, fr, how, k, "second", tc)
         print("replay:", status, bad[:3])
         return bool(bad)
 
